@@ -1,6 +1,6 @@
 (** C16 — property theorems (statements only; proofs by [exact]).  [Heap], [prios]: Proofs.v. *)
 From Coq Require Import ZArith List Bool.
-From RlibV Require Import C03.Model C16.Model C16.Proofs.
+From RlibV Require Import C03.Model C03.Corr C03.Proofs C16.Model C16.Corr C16.Proofs C16.ProofsStrict C16.ProofsHist.
 Import ListNotations.
 Open Scope Z_scope.
 
@@ -23,3 +23,27 @@ Proof. exact @heapb_Heap. Qed.
 (** PARTIAL (the height bound is probabilistic, no universal theorem exists): for the modelled generator (seed 42) and the named adversarial families - sorted appends, front inserts, insert + split-and-swap rotation - with n = 2^k, k <= 14, the model's tree has height <= 5*log2(n+1)+20, is heap-ordered and has n nodes. Missing: any statement for other n, other families, other seeds *)
 Theorem c16_height_partial : forall k : Z, 0 <= k <= 14 -> let n := 2 ^ k in (height (fam step_append n) <= 5 * Z.log2 (n + 1) + 20 /\ Heap (fam step_append n) /\ tsize isize (fam step_append n) = n) /\ (height (fam step_front n) <= 5 * Z.log2 (n + 1) + 20 /\ Heap (fam step_front n) /\ tsize isize (fam step_front n) = n) /\ (height (fam step_rotate n) <= 5 * Z.log2 (n + 1) + 20 /\ Heap (fam step_rotate n) /\ tsize isize (fam step_rotate n) = n).
 Proof. exact height_partial. Qed.
+
+(** the exact invariant of the code (priority <= left child's, < right child's: on a tie the right operand of merge goes up) holds after every history, for every priority stream and any item functions *)
+Theorem c16_heap_strict_preserved : forall (T M V A : Type) (update : T -> option T -> option T -> T) (push : T -> option T -> option T -> T * option T * option T) (size : T -> Z) (modify : M -> T -> T) (elem : T -> V) (agg : T -> A) (ps : list Z) (ops : list (@op T M V)), Forall HeapS (run_final update push size modify elem agg ps ops).
+Proof. exact @heapS_preserved. Qed.
+
+(** trees satisfying that invariant are determined by their in-order (priority, item) list - no distinctness needed: the shape is history independent also with ties *)
+Theorem c16_canonical_ties : forall (T : Type) (t1 t2 : @tree T), HeapS t1 -> HeapS t2 -> inorder t1 = inorder t2 -> t1 = t2.
+Proof. exact @canonical_ties. Qed.
+
+(** such a tree IS the Cartesian tree [cart] of its in-order list *)
+Theorem c16_cartesian : forall (T : Type) (t : @tree T), HeapS t -> t = cart (inorder t).
+Proof. exact @cartesian. Qed.
+
+(** the exact invariant implies plain heap order *)
+Theorem c16_heap_strict_heap : forall (T : Type) (t : @tree T), HeapS t -> Heap t.
+Proof. exact @HeapS_Heap. Qed.
+
+(** history level, any lawful item: every live treap satisfies the exact heap invariant, denotes the values of the (priority, value) list machine and carries IN ORDER exactly that machine's priorities - priorities are created once, never changed, and travel with their elements *)
+Theorem c16_history_priorities : forall (T M A : Type) (update : T -> option T -> option T -> T) (push : T -> option T -> option T -> T * option T * option T) (size : T -> Z) (modify : M -> T -> T) (elem : T -> Z) (agg : T -> A) (act : M -> Z -> Z) (aggf : list Z -> A) (Pending : T -> list M -> Prop), lawful update push size modify elem agg act aggf Pending -> forall (mk : Z -> T) (md : amod -> M) (actc : amod -> Z -> Z), (forall v : Z, Fresh size elem agg aggf Pending (mk v)) -> (forall v : Z, elem (mk v) = v) -> (forall (m : amod) (e : Z), act (md m) e = actc m e) -> forall (ps : list Z) (ops : list cop) (want : list (list pv)), prun actc [] ps ops = Some want -> Forall2 (fun t pxs => HeapS t /\ Rep size elem agg act aggf Pending t (map snd pxs) /\ prios t = map fst pxs) (run_final update push size modify elem agg ps (map (conv mk md) ops)) want.
+Proof. exact @history_inv. Qed.
+
+(** on every correspondence case, agreement with the model implies the specification check (heap order, priorities only moved, Cartesian shape): the batch lemma about the model carries the specification to the implementation by proof *)
+Theorem c16_model_check_spec_check : forall c : case, model_check c = true -> spec_check c = true.
+Proof. exact model_check_spec_check16. Qed.
